@@ -1,7 +1,10 @@
 // ---- src/repr/unit_prop.rs: SATSolver::decide / pop composed with the contract of the real propagator (C09) ----
 //%% include trusted/pm_clone.rs
 //%% include trusted/sat_iters.rs
+//%% include trusted/sat_new_stub.rs
 
+/// the literal occurs among the first k entries of a weighted clause
+pub open spec fn wcontains_upto(c: Seq<(Literal, u128)>, k: int, l: Literal) -> bool { exists|j: int| 0 <= j < k && j < c.len() && (#[trigger] c[j]).0 == l }
 /// a weighted clause contains the literal / has a literal that m makes true
 pub open spec fn wcontains(c: Seq<(Literal, u128)>, l: Literal) -> bool { exists|j: int| 0 <= j < c.len() && (#[trigger] c[j]).0 == l }
 pub open spec fn wclause_true(c: Seq<(Literal, u128)>, m: PartialModel) -> bool { exists|j: int| 0 <= j < c.len() && m.val((#[trigger] c[j]).0.lbl) == Some(c[j].0.pol) }
@@ -36,13 +39,13 @@ impl SATSolver {
         &&& forall|k: int| 0 <= k < self.state_stack@.len() ==> (#[trigger] self.frame(k)).wf() && self.up.watch_ok(self.frame(k))
         &&& forall|j: int, k: int| 0 <= j <= k < self.state_stack@.len() ==> extends(#[trigger] self.frame(k), #[trigger] self.frame(j))
         &&& forall|k: int| 1 <= k < self.state_stack@.len() ==> units_assigned(self.cs(), #[trigger] self.frame(k))
-        // the satisfied-clause bookkeeping: the index built by `new` (A-new-shape), one exact set per frame, models over the formula's variables
+        // the satisfied-clause bookkeeping: the index built by `new` (proved there), one exact set per frame, models over the formula's variables
         &&& self.idx_ok()
         &&& forall|k: int| 0 <= k < self.state_stack@.len() ==> #[trigger] self.sat_inv(k)
         &&& forall|k: int, x: VarLabel| 0 <= k < self.state_stack@.len() && (#[trigger] self.frame(k).val(x)) is Some ==> x.0 < self.up.cnf.num_vars
     }
 
-    /// the literal -> clauses index and the weighted clause list as SATSolver::new builds them (A-new-shape: new is not under contract)
+    /// the literal -> clauses index and the weighted clause list as SATSolver::new is proved to build them
     pub open spec fn idx_ok(&self) -> bool {
         &&& self.contains_pos_lit@.len() == self.up.cnf.num_vars && self.contains_neg_lit@.len() == self.up.cnf.num_vars
         &&& self.clauses@.len() <= usize::MAX   // (true of every Vec; stated because a proof context cannot call `len()`)
@@ -111,6 +114,62 @@ impl SATSolver {
                 invariant b__i <= bs__v@.len(),
 //%% @loop 6 /^while c__i < cl__v\.len\(\)$/
                     invariant c__i <= cl__v@.len(),
+//%% end
+
+// A-normalise: the normalisation prologue of `new` (clone + sort + dedup of every clause through map / collect, a `filter` closure with
+// nested loops that drops clauses containing a literal and its negation, and a prime per literal from the external sieve `primal`) is
+// replaced by the stub verif_weighted_clauses, which states what it computes; everything after it is the real text.
+// R-enumerate for the index-building loop; `for _ in` gets a named index.
+//%% extract src/repr/unit_prop.rs :: impl SATSolver :: fn new
+//%% @ret r
+//%% @attr #[verifier::loop_isolation(false)]
+//%% @rewrite 1 /\/\/ normalize the clauses by \(1\) deduplicating and \(2\) filtering\n.*?let clauses: Vec<Vec<\(Literal, u128\)>> = i\n.*?\.collect\(\);\n/ => let clauses: Vec<Vec<(Literal, u128)>> = verif_weighted_clauses(&cnf);\n
+//%% @rewrite 1 /let mut pos_lit = Vec::new\(\);/ => let mut pos_lit: Vec<BitSet> = Vec::new();
+//%% @rewrite 1 /let mut neg_lit = Vec::new\(\);/ => let mut neg_lit: Vec<BitSet> = Vec::new();
+//%% @rewrite 1 /for _ in 0\.\.\(cnf\.num_vars\(\)\) \{/ => for nv__k in 0..(cnf.num_vars()) {
+//%% @rewrite 1 /for \(clause_idx, clause\) in clauses\.iter\(\)\.enumerate\(\) \{/ => for clause_idx in 0..clauses.len() { let clause = &clauses[clause_idx];
+//%% @rewrite 1 /for lit in clause\.iter\(\) \{/ => for lit in lt__it: clause.iter() {
+//%% @spec
+        requires cnf.wf(), norm_lits(cnf.clauses@),
+        ensures
+            r is None ==> unsat(cnf.clauses@),
+            r matches Some(s) ==> s.solver_ok() && s.state_stack@.len() == 2 && s.up.cnf == cnf && wnorm(s)
+                && implied_by(cnf.clauses@, s.top()) && at_fixpoint(s.cs(), s.top()),
+//%% @entry
+        proof { lemma_norm_ok(cnf.clauses@); }
+//%% @loop 1 /^for nv__k in 0\.\.\(cnf\.num_vars\(\)\)$/
+                    invariant
+                        pos_lit@.len() == nv__k, neg_lit@.len() == nv__k,
+                        forall|v: int, i: usize| 0 <= v < nv__k ==> !(#[trigger] pos_lit@[v]@.contains(i)),
+                        forall|v: int, i: usize| 0 <= v < nv__k ==> !(#[trigger] neg_lit@[v]@.contains(i)),
+//%% @loop 2 /^for clause_idx in 0\.\.clauses\.len\(\)$/
+                    invariant
+                        pos_lit@.len() == cnf.num_vars, neg_lit@.len() == cnf.num_vars,
+                        forall|v: int, i: usize| 0 <= v < pos_lit@.len() ==> ((#[trigger] pos_lit@[v]@.contains(i)) == (i < clause_idx && wcontains(clauses@[i as int]@, Literal { lbl: VarLabel(v as u64), pol: true }))),
+                        forall|v: int, i: usize| 0 <= v < neg_lit@.len() ==> ((#[trigger] neg_lit@[v]@.contains(i)) == (i < clause_idx && wcontains(clauses@[i as int]@, Literal { lbl: VarLabel(v as u64), pol: false }))),
+//%% @loop 3 /^for lit in lt__it: clause\.iter\(\)$/
+                        invariant
+                            pos_lit@.len() == cnf.num_vars, neg_lit@.len() == cnf.num_vars, clause@ == clauses@[clause_idx as int]@,
+                            forall|v: int, i: usize| 0 <= v < pos_lit@.len() ==> ((#[trigger] pos_lit@[v]@.contains(i)) ==
+                                ((i < clause_idx && wcontains(clauses@[i as int]@, Literal { lbl: VarLabel(v as u64), pol: true }))
+                                 || (i == clause_idx && wcontains_upto(clause@, lt__it.index@, Literal { lbl: VarLabel(v as u64), pol: true })))),
+                            forall|v: int, i: usize| 0 <= v < neg_lit@.len() ==> ((#[trigger] neg_lit@[v]@.contains(i)) ==
+                                ((i < clause_idx && wcontains(clauses@[i as int]@, Literal { lbl: VarLabel(v as u64), pol: false }))
+                                 || (i == clause_idx && wcontains_upto(clause@, lt__it.index@, Literal { lbl: VarLabel(v as u64), pol: false })))),
+//%% @before /^\s*let \(new_hash, new_sat_set\) = solver\.update_hash_and_sat_set\(&state\);$/
+                proof {
+                    lemma_watch_empty(solver.up, solver.frame(0));
+                    assert(extends(state, solver.frame(0)));
+                    assert(solver.sat_inv(0)) by {
+                        assert forall|i: usize| #[trigger] solver.state_stack@[0].sat_clauses@.contains(i) == (i < solver.clauses@.len() && wclause_true(solver.clauses@[i as int]@, solver.frame(0))) by { }
+                    }
+                }
+//%% @before /^\s*Some\(solver\)$/
+                proof {
+                    assert(solver.sat_inv(1));
+                    assert(solver.sat_inv(0));
+                    lemma_initial_solver_ok(solver, solver.frame(1));
+                }
 //%% end
 
 //%% extract src/repr/unit_prop.rs :: impl SATSolver :: fn top_state
@@ -315,7 +374,7 @@ pub proof fn lemma_flag_full(s: SATSolver, k: int)
     }
 }
 
-// ---- what the flag means for the FORMULA: relative to the shape SATSolver::new gives the weighted clause list (A-new-shape) ----
+// ---- what the flag means for the FORMULA: relative to wnorm, which SATSolver::new ensures (A-normalise) ----
 /// the clause contains a literal and its negation
 pub open spec fn taut(c: Seq<Literal>) -> bool { exists|j: int, k: int| 0 <= j < c.len() && 0 <= k < c.len() && (#[trigger] c[j]).lbl == (#[trigger] c[k]).lbl && c[j].pol != c[k].pol }
 /// same literals
@@ -323,11 +382,12 @@ pub open spec fn taut(c: Seq<Literal>) -> bool { exists|j: int, k: int| 0 <= j <
 pub open spec fn wsame(wc: Seq<(Literal, u128)>, c: Seq<Literal>) -> bool {
     (forall|j: int| 0 <= j < wc.len() ==> c.contains((#[trigger] wc[j]).0)) && (forall|j: int| 0 <= j < c.len() ==> wcontains(wc, #[trigger] c[j]))
 }
-/// A-new-shape (second half): the weighted clause list is the formula's non-tautological clauses, literal set by literal set
-pub open spec fn wnorm(s: SATSolver) -> bool {
-    &&& forall|i: int| 0 <= i < s.clauses@.len() ==> exists|j: int| 0 <= j < s.cs().len() && !taut(s.cs()[j]@) && wsame((#[trigger] s.clauses@[i])@, (#[trigger] s.cs()[j])@)
-    &&& forall|j: int| 0 <= j < s.cs().len() && !taut((#[trigger] s.cs()[j])@) ==> exists|i: int| 0 <= i < s.clauses@.len() && wsame((#[trigger] s.clauses@[i])@, s.cs()[j]@)
+/// the weighted clause list is the formula's non-tautological clauses, literal set by literal set
+pub open spec fn wnorm_rel(wcs: Seq<Vec<(Literal, u128)>>, cs: Seq<Vec<Literal>>) -> bool {
+    &&& forall|i: int| 0 <= i < wcs.len() ==> exists|j: int| 0 <= j < cs.len() && !taut(cs[j]@) && wsame((#[trigger] wcs[i])@, (#[trigger] cs[j])@)
+    &&& forall|j: int| 0 <= j < cs.len() && !taut((#[trigger] cs[j])@) ==> exists|i: int| 0 <= i < wcs.len() && wsame((#[trigger] wcs[i])@, cs[j]@)
 }
+pub open spec fn wnorm(s: SATSolver) -> bool { wnorm_rel(s.clauses@, s.cs()) }
 pub proof fn lemma_wsame_true(wc: Seq<(Literal, u128)>, c: Seq<Literal>, m: PartialModel)
     requires wsame(wc, c),
     ensures wclause_true(wc, m) == clause_true_p(c, m),
